@@ -14,7 +14,12 @@ pub const FINDING_PERMUTE: &str = "C24-permute-accepts-sublists";
 const RELS: [Rel; 10] = [Rel::Member, Rel::Member1, Rel::Append, Rel::Rember, Rel::Permute, Rel::Distinct, Rel::Cons, Rel::First, Rel::Rest, Rel::Empty];
 
 fn elem(s: &mut Source) -> Term {
-    Term::Int(1 + s.below(3) as i64)
+    // mostly atoms; sometimes a small list (an element that can itself contain variables)
+    match s.weighted(&[12, 1, 1]) {
+        0 => Term::Int(1 + s.below(3) as i64),
+        1 => Term::list(vec![Term::Int(1 + s.below(2) as i64)]),
+        _ => Term::list(vec![Term::Int(1 + s.below(2) as i64), Term::Int(1 + s.below(2) as i64)]),
+    }
 }
 
 fn glist(s: &mut Source, max: usize) -> Vec<Term> {
@@ -55,9 +60,11 @@ fn solution(s: &mut Source, rel: Rel) -> Vec<Term> {
             vec![Term::list(l), Term::list(y)]
         }
         Rel::Distinct => {
+            // pairwise different elements: atoms and small lists
+            let pool = [Term::Int(1), Term::Int(2), Term::Int(3), Term::ints(&[1]), Term::ints(&[2]), Term::ints(&[1, 2])];
             let n = s.below(4);
-            let perm = s.permutation(3);
-            vec![Term::list(perm.into_iter().take(n).map(|i| Term::Int(i as i64 + 1)).collect())]
+            let perm = s.permutation(pool.len());
+            vec![Term::list(perm.into_iter().take(n).map(|i| pool[i].clone()).collect())]
         }
         Rel::Cons => {
             let f = elem(s);
@@ -101,12 +108,15 @@ fn abstract_term(s: &mut Source, t: &Term, binds: &mut Vec<Term>, level: u32) ->
         0 => t.clone(),
         1 => fresh(t, binds, s),
         _ => match t.as_proper_list() {
-            Some(items) if !items.is_empty() && level == 0 => {
+            Some(items) if !items.is_empty() && level <= 1 => {
                 // partially ground: some elements become variables, maybe the tail too
-                let cut = if s.flag(70) { s.below(items.len() + 1) } else { items.len() };
+                let cut = if s.flag(70) && level == 0 { s.below(items.len() + 1) } else { items.len() };
                 let mut out = vec![];
                 for it in items.iter().take(cut) {
-                    if s.flag(100) {
+                    if it.as_proper_list().map(|l| !l.is_empty()).unwrap_or(false) && level == 0 && s.flag(128) {
+                        // a variable INSIDE an element that is a list
+                        out.push(abstract_term(s, it, binds, 1));
+                    } else if s.flag(100) {
                         out.push(fresh(it, binds, s));
                     } else {
                         out.push((*it).clone());
